@@ -68,6 +68,26 @@ void _ZSt13__stable_sortIN9__gnu_cxx17__normal_iteratorIPSt4pairIiiESt6vectorIS3
     a[2 * j] = kf; a[2 * j + 1] = ks; }
 }
 #endif
+#ifndef VF_REAL
+/* std::set<NLSuffix> holds at most one element in these harnesses.  libstdc++'s recursive subtree copy / erase (_Rb_tree::_M_copy, _M_erase)
+ * are replaced by their single-node versions (asserted): clone the node with the real NLSuffix copy constructor; destroy it with the real
+ * NLSuffix destructor.  Node layout: _Rb_tree_node_base (32 bytes) followed by the value. */
+struct rbn8 { u32 color; char *parent, *left, *right; };
+char *_ZNSt8_Rb_treeIN2mp8NLSuffixES1_St9_IdentityIS1_ESt4lessIS1_ESaIS1_EE7_M_copyILb0ENS7_11_Alloc_nodeEEEPSt13_Rb_tree_nodeIS1_ESC_PSt18_Rb_tree_node_baseRT0_(char *self, char *x, char *p, char *gen) {
+  struct rbn8 *xs = (struct rbn8 *)x;
+  VF_ASSERT(xs->left == 0 && xs->right == 0, "model bound: std::set<NLSuffix> with one element");
+  char *n = vf_malloc(32 + 96);
+  _ZN2mp8NLSuffixC2ERKS0_(n + 32, x + 32);
+  struct rbn8 *ns = (struct rbn8 *)n; ns->color = xs->color; ns->parent = p; ns->left = 0; ns->right = 0;
+  return n;
+}
+void _ZNSt8_Rb_treeIN2mp8NLSuffixES1_St9_IdentityIS1_ESt4lessIS1_ESaIS1_EE8_M_eraseEPSt13_Rb_tree_nodeIS1_E(char *self, char *x) {
+  if (!x) return;
+  struct rbn8 *xs = (struct rbn8 *)x;
+  VF_ASSERT(xs->left == 0 && xs->right == 0, "model bound: std::set<NLSuffix> with one element");
+  _ZN2mp8NLSuffixD2Ev(x + 32);
+}
+#endif
 /* ---- model construction ---- */
 static void mkmodel(int with_rows, int with_suffix) {
 #ifdef NFIX
